@@ -66,7 +66,7 @@ class Context:
                 print(f'KNOWN-FINDING: property={self.pid} {key}: {what}')
             return
         os.makedirs(REPLAY_DIR, exist_ok=True)
-        safe = ''.join(c if c.isalnum() or c in '-_.' else '_' for c in key)[:80]
+        safe = ''.join(c if (c.isascii() and c.isalnum()) or c in '-_.' else ('_' if c.isascii() else 'u%04x' % ord(c)) for c in key)[:80]
         path = os.path.join(REPLAY_DIR, f'{self.pid}_{safe}.json')
         with open(path, 'w') as f:
             json.dump({'property': self.pid, 'key': key, 'what': what, 'found_failing_input': found,
@@ -685,7 +685,8 @@ def run_stream(ctx, module, prefix, n, label, rule, **kw):
 ADVERSARIAL_INPUTS = ['nan', 'NaN', 'inf', '-inf', 'Infinity', '1e999', '-1e999', '1_0.5', '1__0', '_1', ' 12 ', '+5', '1e3',
                       '\u0661\u0662', '\uff11\uff12', '', '  ', 'yes', 'YES', ' On', 'ja', 'true ', 'Tru', '0x10', '1.', '.5', '1,000',
                       '123-45-6789', '123456789', '12345678', '1234567890', '12345678a', '- -', 'Single', 'single', ' Single ',
-                      'Singl', '011000015', '011000015\n', '001000015', 'ACCT-12345', 'a' * 18, '--', '5.', '٣']
+                      'Singl', '011000015', '011000015\n', '001000015', 'ACCT-12345', 'a' * 18, '--', '5.', '٣',
+                      '１２３-４５-６７８９', '123-45-678²', '①②③④⑤⑥⑦⑧⑨', '١٢٣٤٥٦٧٨٩', '123 45 6789', '１２３', '²', '௧', '1²', '12³4']
 
 
 def oracle_c11():
@@ -740,6 +741,10 @@ def oracle_c11():
                     probs.append((f'{type(inp).__name__}:{t!r}', f'{type(inp).__name__}: {t!r} gives {type(v).__name__}, declared {ty.__name__}'))
                 if isinstance(v, float) and not math.isfinite(v):
                     probs.append((f'{type(inp).__name__}:{t!r}', f'{type(inp).__name__}: {t!r} gives the non-finite number {v!r}'))
+                # a social security number that reaches a line is nine of the digits 0-9 (the form the class itself
+                # announces, 123-45-6789, without the separators) -- a reference independent of SSNInput.valid
+                if isinstance(inp, hi.SSNInput) and not (isinstance(v, str) and len(v) == 9 and all(c in '0123456789' for c in v)):
+                    probs.append((f'{type(inp).__name__}:{t!r}', f'SSNInput: {t!r} is not a nine-digit number, yet it reached a line as {v!r}'))
                 # "text that does not denote a finite number for a numeric input is never turned into a value": the
                 # reference for "denotes" is the language's own number syntax, independent of the input class
                 if isinstance(inp, (hi.FloatInput, hi.IntegerInput)) and t.strip():
